@@ -178,6 +178,7 @@ package server
 //@   fresh authOK, granted
 //@   at-call buildAndSend assert [C19:correlated] respondsTo(req, stunMsg, arg0, arg1, arg2)
 //@   at-call buildAndSend assert [C03,C19:success-only-authed] int(typeOf(arg2).Class) == 2 ==> authOK
+//@   at-call buildAndSend assert [C19:error-answer-carries-its-code] authOK ==> (int(typeOf(arg2).Class) == 3 ==> len(arg2) == 4 && typeis(arg2[2], *stun.ErrorCodeAttribute)) && (int(typeOf(arg2).Class) == 2 ==> len(arg2) == 3)
 //@   at-call buildAndSend assert [C01,C19:success-iff-permissions-installed] authOK ==> ((int(typeOf(arg2).Class) == 2) == (addCount != 0)) && ((int(typeOf(arg2).Class) == 3) == (addCount == 0))
 //@   at-call (*allocation.Manager).GetAllocationForUserID assert [C03,C04:own-tuple] recv == req.AllocationManager && ownTuple(arg0, req) && authOK && arg1 == authUser
 //@   ensures [C03:answered-only-requester] forall c :: c != req.Conn ==> pktWrites[c] == old(pktWrites[c])
@@ -193,6 +194,7 @@ package server
 //@   at-call buildAndSend assert [C19:correlated] respondsTo(req, stunMsg, arg0, arg1, arg2)
 //@   at-call buildAndSendErr assert [C19:correlated] respondsTo(req, stunMsg, arg0, arg1, arg3)
 //@   at-call (*allocation.Manager).GetAllocationForUserID assert [C03,C04:own-tuple] recv == req.AllocationManager && ownTuple(arg0, req) && authOK && arg1 == authUser
+//@   at-call (*allocation.Allocation).Refresh assert [C06:refresh-family-matches] !hasAttr(stunMsg, stun.AttrRequestedAddressFamily) || int(requestedFamily) == int(ownAlloc(req).addressFamily)
 //@   at-call (*allocation.Allocation).Refresh assert [C04,C06:refresh-value] recv == ownAlloc(req) && int(arg0) == lifetimeOf(req, stunMsg) && int(arg0) != 0
 //@   at-call (*allocation.Manager).DeleteAllocation assert [C03,C04,C06:zero-deletes] recv == req.AllocationManager && ownTuple(arg0, req) && authOK && lifetimeOf(req, stunMsg) == 0 && ownAlloc(req) != nil && ownAlloc(req).userID == authUser
 //@   at-call buildAndSendErr assert [C06:rejected-refresh-no-effect] ownAlloc(req) == old(ownAlloc(req)) && (forall t :: dur(t) == old(dur(t)) && armed(t) == old(armed(t)))
